@@ -23,6 +23,7 @@ import (
 	"github.com/lni/dragonboat/v4/internal/rsm"
 	"github.com/lni/dragonboat/v4/internal/server"
 	"github.com/lni/dragonboat/v4/internal/settings"
+	"github.com/lni/dragonboat/v4/internal/tan"
 	"github.com/lni/dragonboat/v4/internal/verifkit"
 	"github.com/lni/dragonboat/v4/internal/verifkit/memlogdb"
 	"github.com/lni/dragonboat/v4/internal/vfs"
@@ -114,22 +115,81 @@ func (p *nxPipe) setRecoverReady(uint64) { p.recover = true }
 // nxLogDB wraps the shared in-memory store of one host: hook points for crash
 // injection and the durable shadow used by the C04 oracle.
 type nxLogDB struct {
-	*memlogdb.DB
+	raftio.ILogDB
 	h *nxHost
 }
 
 func (l *nxLogDB) SaveRaftState(updates []pb.Update, shardID uint64) error {
 	l.h.hook("before SaveRaftState")
-	err := l.DB.SaveRaftState(updates, shardID)
+	err := l.ILogDB.SaveRaftState(updates, shardID)
 	l.h.hook("after SaveRaftState")
 	return err
 }
 
 func (l *nxLogDB) SaveSnapshots(updates []pb.Update) error {
 	l.h.hook("before SaveSnapshots")
-	err := l.DB.SaveSnapshots(updates)
+	err := l.ILogDB.SaveSnapshots(updates)
 	l.h.hook("after SaveSnapshots")
 	return err
+}
+
+// openStore opens (or reopens after a crash) the log store of a host.
+func (c *nxCluster) openStore(h *nxHost) {
+	if c.cfg.Store == "" {
+		if h.db == nil {
+			h.db = memlogdb.New()
+		}
+		return
+	}
+	if h.db != nil {
+		// process crash: the store object dies with the process; what it had
+		// acknowledged is in the file system (power loss is C10's subject)
+		if err := h.db.Close(); err != nil {
+			panic(err)
+		}
+		h.db = nil
+	}
+	dir, wal := "/logdb", "/logdb-wal"
+	for _, d := range []string{dir, wal} {
+		if err := h.fs.MkdirAll(d, 0755); err != nil {
+			panic(err)
+		}
+	}
+	nhc := config.NodeHostConfig{Expert: config.GetDefaultExpertConfig()}
+	nhc.Expert.LogDB = config.GetTinyMemLogDBConfig()
+	nhc.Expert.LogDB.Shards = 1
+	nhc.Expert.FS = h.fs
+	var err error
+	switch c.cfg.Store {
+	case "pebble":
+		h.db, err = logdb.NewDefaultLogDB(nhc, nil, []string{dir}, []string{wal})
+	case "tan":
+		h.db, err = tan.Factory.Create(nhc, nil, []string{dir}, []string{wal})
+	default:
+		panic("unknown store " + c.cfg.Store)
+	}
+	if err != nil {
+		panic(err)
+	}
+}
+
+// durable state of a host, read through the public ILogDB API
+func nxState(h *nxHost) pb.State {
+	ss, _ := h.db.GetSnapshot(nxShard, h.id)
+	rs, err := h.db.ReadRaftState(nxShard, h.id, ss.Index)
+	if err != nil {
+		return pb.State{}
+	}
+	return rs.State
+}
+
+func nxMaxIndex(h *nxHost) uint64 {
+	ss, _ := h.db.GetSnapshot(nxShard, h.id)
+	rs, err := h.db.ReadRaftState(nxShard, h.id, ss.Index)
+	if err != nil || rs.EntryCount == 0 {
+		return ss.Index
+	}
+	return rs.FirstIndex + rs.EntryCount - 1
 }
 
 // ---------------------------------------------------------------- host
@@ -137,8 +197,8 @@ func (l *nxLogDB) SaveSnapshots(updates []pb.Update) error {
 type nxHost struct {
 	c     *nxCluster
 	id    uint64
-	db    *memlogdb.DB // persistent
-	fs    vfs.IFS      // persistent
+	db    raftio.ILogDB // persistent content (in-memory store, or a real store on fs)
+	fs    vfs.IFS       // persistent
 	node  *node
 	eng   *engine
 	pipe  *nxPipe
@@ -211,6 +271,9 @@ type nxCfg struct {
 	// client operation of the script must have completed (bounded liveness; use
 	// only with benign deviations)
 	RequireComplete bool
+	// Store: "" = in-memory ILogDB; "pebble" / "tan" = the real log store on the
+	// host's MemFS (reopened at every restart)
+	Store string
 	// RealPool: the real snapshot worker pool, node loaders, reference counting
 	// and close worker are used (see nodex_pool_test.go); SnapshotEntries makes
 	// the node request snapshots by itself
@@ -283,7 +346,7 @@ func newNxCluster(cfg *nxCfg) *nxCluster {
 		return obj
 	}
 	for i := 1; i <= cfg.N; i++ {
-		h := &nxHost{c: c, id: uint64(i), db: memlogdb.New(), fs: vfs.NewMemFS()}
+		h := &nxHost{c: c, id: uint64(i), fs: vfs.NewMemFS()}
 		c.hosts = append(c.hosts, h)
 		c.byID[h.id] = h
 		c.startHost(h)
@@ -300,7 +363,8 @@ func (c *nxCluster) startHost(h *nxHost) {
 	h.lastUpdIdx = 0
 	h.recoveredIdx = 0
 	h.crashAt, h.hookN = 0, 0
-	ldb := &nxLogDB{DB: h.db, h: h}
+	c.openStore(h)
+	ldb := &nxLogDB{ILogDB: h.db, h: h}
 	snapdir := fmt.Sprintf("/snap-%d", h.id)
 	if err := h.fs.MkdirAll(snapdir, 0755); err != nil {
 		panic(err)
@@ -722,6 +786,11 @@ func (c *nxCluster) scriptEvent(it string) uint32 {
 	case 'S':
 		fmt.Sscanf(it[1:], "%d", &a)
 		return nxev(nxStop, a, 0)
+	case 'M':
+		fmt.Sscanf(it[1:], "%d", &a)
+		return nxev(nxPartition, a, 0)
+	case 'E':
+		return nxev(nxHeal, 0, 0)
 	case 'w':
 		fmt.Sscanf(it[1:], "%d", &a)
 		return nxev(nxWriteShort, a, 0)
